@@ -8,11 +8,13 @@ static SCHEMAS: OnceLock<Vec<String>> = OnceLock::new();
 pub fn schemas() -> &'static Vec<String> {
   SCHEMAS.get_or_init(|| {
     let mut v = vec![];
-    if let Ok(t) = std::fs::read_to_string("/verif/seeds/schemas.txt") {
-      for s in t.split("\n%%\n") {
-        let s = s.trim_end_matches('\n');
-        if !s.trim().is_empty() {
-          v.push(format!("{}\n", s));
+    for f in ["/verif/seeds/schemas.txt", "/verif/seeds/interactions.txt"] {
+      if let Ok(t) = std::fs::read_to_string(f) {
+        for s in t.split("\n%%\n") {
+          let s = s.trim_end_matches('\n');
+          if !s.trim().is_empty() {
+            v.push(format!("{}\n", s));
+          }
         }
       }
     }
@@ -30,6 +32,51 @@ pub fn schemas() -> &'static Vec<String> {
     assert!(v.len() > 50, "seed corpus missing (/verif/seeds/schemas.txt)");
     v
   })
+}
+
+static TREES: OnceLock<Vec<crate::gs::GS>> = OnceLock::new();
+
+/// the corpus schemas that convert to derivation trees and are small enough for the
+/// validator properties (interaction schemas written by hand + the smaller fixtures)
+pub fn trees() -> &'static Vec<crate::gs::GS> {
+  TREES.get_or_init(|| schemas().iter().filter(|s| s.len() < 1500).filter_map(|s| crate::fromast::gs_of_text(s)).filter(|g| g.rules.len() <= 12 && crate::gs::wellformed(g)).collect())
+}
+
+static SHARED: OnceLock<Vec<crate::gs::GS>> = OnceLock::new();
+
+/// corpus trees inside the feature set shared by the JSON and CBOR validators (JSON data model,
+/// the control operators of Profile::shared); `cbor_core` additionally admits byte strings, tags
+/// and major types
+pub fn trees_for(cbor_core: bool) -> &'static Vec<crate::gs::GS> {
+  static CORE: OnceLock<Vec<crate::gs::GS>> = OnceLock::new();
+  let f = move |cbor: bool| -> Vec<crate::gs::GS> {
+    const CTL: &[&str] = &["lt", "le", "gt", "ge", "eq", "ne", "size", "and", "within", "default"];
+    const PRE: &[&str] = &["int", "uint", "nint", "float", "float16", "float32", "float64", "float16-32", "float32-64", "number", "tstr", "text", "bool", "true", "false", "nil", "null", "any"];
+    const PRE_CBOR: &[&str] = &["bstr", "bytes", "undefined"];
+    trees()
+      .iter()
+      .filter(|g| {
+        crate::gs::tags(g).iter().all(|t| {
+          if let Some(c) = t.strip_prefix("ctl.") {
+            return CTL.contains(&c);
+          }
+          if let Some(p) = t.strip_prefix("pre.") {
+            return PRE.contains(&p) || (cbor && PRE_CBOR.contains(&p));
+          }
+          if t.starts_with("lit.bytes") || t.starts_with("tag") || t.starts_with("major") || t == "any.hash" {
+            return cbor;
+          }
+          true
+        })
+      })
+      .cloned()
+      .collect()
+  };
+  if cbor_core {
+    CORE.get_or_init(|| f(true))
+  } else {
+    SHARED.get_or_init(|| f(false))
+  }
 }
 
 pub const CDDL_TOKENS: &[&str] = &[
